@@ -977,3 +977,18 @@ add("C20", "parser-does-not-exit-on-error", CLI,
 add("C20", "benign-parser-epilog", CLI,
     [("    parser = ArgumentParser(description=\"Run codemods and change code.\")", "    parser = ArgumentParser(description=\"Run codemods and change code.\", epilog=\"See the docs.\", allow_abbrev=True)")],
     "silent")
+add("C19", "doctype-identifiers-escaped", XT,
+    [("            external_id = f' SYSTEM \"{system_id}\"'", "            external_id = f' SYSTEM {quoteattr(system_id)}'"),
+     ("from xml.sax.saxutils import XMLGenerator", "from xml.sax.saxutils import XMLGenerator, quoteattr")],
+    "fire", "R-XML-VERBATIM", "startDTD")
+add("C19", "comment-text-stripped", XT,
+    [("        self._write(f\"<!--{content}-->\\n\")  # type: ignore", "        self._write(f\"<!-- {content.strip()} -->\\n\")  # type: ignore")],
+    "fire", "R-XML-VERBATIM", "comment")
+add("C19", "benign-doctype-built-from-pieces", XT,
+    [("        self._write(f\"<!DOCTYPE {name}{external_id}>\\n\")  # type: ignore", "        pieces = [\"<!DOCTYPE \", name]\n        pieces.append(external_id)\n        self._write(\"\".join(pieces) + \">\\n\")  # type: ignore")],
+    "silent")
+add("C19", "regex-helper-public-and-normalising", RT,
+    [("    def _apply_regex(self, line):\n        return re.sub(self.pattern, self.replacement, line)", "    def apply_regex(self, line):\n        return re.sub(self.pattern, self.replacement, line.rstrip(\"\\r\\n\")) + \"\\n\""),
+     ("enumerate(original_lines):\n            changed_line = self._apply_regex(line)", "enumerate(original_lines):\n            changed_line = self.apply_regex(line)"),
+     ("changed_line = self._apply_regex(line)", "changed_line = self.apply_regex(line)")],
+    "fire", "R-NO-MATCH-IDENTITY", "apply_regex")
